@@ -388,6 +388,9 @@ func unmatchedClause(w *World, fn *ssa.Function, con *Contract) string {
 	for _, b := range fn.Blocks {
 		collectCallNames(b.Instrs, names, seen, 0)
 		for _, ins := range b.Instrs {
+			if _, ok := ins.(*ssa.Return); ok {
+				direct["return"]++
+			}
 			if c, ok := ins.(*ssa.Call); ok {
 				direct[calleeName(&c.Call)]++
 				if qn := calleeQName(&c.Call); qn != "" {
